@@ -68,7 +68,22 @@ def violates(run, case, impl, model):
     return False
 
 
-LEVEL_TEXT = "see docs/C10.md"
-LEVEL_NOTE = "see docs/C10.md"
+LEVEL_TEXT = ("Proof (Coq, no axioms) over ALL thread programs and ALL interleavings of a small-step model of capability.go with "
+              "explicit per-client and per-hook mutexes: an inductive invariant (exact reference accounting along resolution "
+              "chains, call accounting, done/Shutdown protocol, mutex protocol) is preserved by every step; from it: Shutdown of a "
+              "hook runs at most once, and exactly once by the time all operations have finished iff its reference count is 0 "
+              "(shutdown_once); at the Shutdown step refs = 0, calls = 0 and no live client resolves to the hook "
+              "(shutdown_after_last); every unlocked hook's refs equals the number of live clients resolving to it and Fulfill "
+              "moves the promised hook's references to the target (refs_transfer, refs_transfer_step); calls through "
+              "nil/released/null-resolved clients end with the error result without touching a hook (null_released_error). "
+              "Deadlock freedom is proved only in part (no_stuck_partial: configurations without a Fulfill inside its transfer "
+              "walk, ids well-formed); hence level `other`. The pre-fix Fulfill is kept as model variant fixed=false with the "
+              "machine-found double-use witness (C10_prefix_refuted). The model is tied to the code by replaying, on the extracted "
+              "model, the exact schedules through which the harness drives the real goroutines (synctest + verif yield points), "
+              "comparing events, result classes, per-hook refs/calls/done/shutdown counts and the enabled-thread set before every step.")
+LEVEL_NOTE = ("no_stuck (deadlock freedom) is not proved at full strength: missing are the well-formedness of ids as an invariant and "
+              "the acyclicity argument for chains of concurrent Fulfill transfer walks; assumptions: the Fulfill argument stays "
+              "unreleased during the call, no resolution cycles, one goroutine per WeakClient value. Defect found and fixed: "
+              "ClientPromise.Fulfill released the promise hook's mutex before locking the target (repo commit 'fix: ClientPromise.Fulfill ...').")
 TECHNIQUE = "Coq invariant proofs over a small-step interleaving model + schedule-replay correspondence under synctest"
 DESIGN_REF = "DESIGN.md section 6, C10"
